@@ -850,6 +850,11 @@ class TransportLayerLogic:
                             if rx_result.immediate_tx_required:
                                 break
 
+                        if do_tx and self.tx_state in (self.TxState.TRANSMIT_CF, self.TxState.TRANSMIT_SF_STANDBY, self.TxState.TRANSMIT_FF_STANDBY):
+                            # The transmit state machine has time-driven work (STmin / rate limiter). Do not let continuous bus traffic starve it.
+                            run_process = True  # Come back for the remaining messages right after the tx pass
+                            break
+
             start_with_tx = False   # it's a one-time event
 
             self.rate_limiter.update()  # Only applies to transmission. Update after rxfn because it can be blocking.
